@@ -39,6 +39,13 @@ CRATES = {
                   rustflags="--cfg gmsol_verif",
                   dep='gmsol-store = { path = "%s/programs/store", features = ["no-entrypoint"] }\n'
                       'gmsol-model = { path = "%s/crates/model", features = ["u128"] }\nanchor-lang = "0.31.1"\nbytemuck = "1.19.0"\ngmsol-utils = { path = "%s/crates/utils" }'),
+    "treasury": dict(dir="programs/treasury", features=["no-entrypoint"], assoc="crates/model/src/num.rs", extra=["model"],
+                     decl_dirs=["crates/utils/src", "programs/store/src"], rustflags="--cfg gmsol_verif",
+                     dep='gmsol-treasury = { path = "%s/programs/treasury", features = ["no-entrypoint"] }\n'
+                         'gmsol-model = { path = "%s/crates/model", features = ["u128"] }\nanchor-lang = "0.31.1"\nbytemuck = "1.19.0"'),
+    "lp": dict(dir="programs/liquidity-provider", features=["no-entrypoint"], assoc="crates/model/src/num.rs", extra=["model"],
+               decl_dirs=[], rustflags="--cfg gmsol_verif",
+               dep='gmsol-liquidity-provider = { path = "%s/programs/liquidity-provider", features = ["no-entrypoint"] }\nanchor-lang = "0.31.1"'),
     "utils": dict(dir="crates/utils", features=[], assoc=None,
                   dep='gmsol-utils = { path = "%s/crates/utils" }\nruint = { version = "1.15.0", default-features = false }'),
 }
@@ -231,9 +238,13 @@ def encode(ob, world):
             vals[n] = symex.Bv(ob.fixed[n]) if ty == "bool" else symex.I(ob.fixed[n], ty)
         else:
             vals[n] = ex.sym_bool(n) if ty == "bool" else ex.sym_int(n, ty)
+            if n in ob.bounds:
+                lo, hi = ob.bounds[n]
+                ex.decls.append(f"(assert (and (<= {smt(lo)} {n}) (<= {n} {smt(hi)})))")       # stated assumption
+                symex.set_bound(n, lo, hi)
     item, subst = ob.locate(world)
-    ex.stubs = [(re.compile("^" + p + "$"), (lambda e, m, a, f=f: f(e, m, a, vals))) for p, f in ob.stubs]
-    ex.tap_rx = [(n, re.compile("^" + p + "$")) for n, (p, _) in ob.taps.items()]
+    ex.stubs = [(re.compile("^(?:" + p + ")$"), (lambda e, m, a, f=f: f(e, m, a, vals))) for p, f in ob.stubs]
+    ex.tap_rx = [(n, re.compile("^(?:" + p + ")$")) for n, (p, _) in ob.taps.items()]
     if ob.runner:
         ret = ob.runner(ex, item, subst, vals)
     else:
